@@ -91,3 +91,148 @@ pub fn kernel<T: IntT, S: Src>(s: &mut S) -> R {
     );
     Ok(())
 }
+
+fn is_digit(b: u8) -> bool {
+    b >= b'0' && b <= b'9'
+}
+
+/// (b) fast path: real lexical-core integer parser on every NR1 literal of exactly N bytes
+/// (optional sign + digits) against a reference accumulator.
+pub fn nr1<T: IntT, const N: usize, S: Src>(s: &mut S) -> R {
+    let lit: [u8; N] = crate::bytes::<N, S>(s);
+    // NR1 shape: [+-]? digit+
+    let signed = lit[0] == b'+' || lit[0] == b'-';
+    assume!(s, signed || is_digit(lit[0]));
+    assume!(s, !signed || N >= 2);
+    let mut i = 1;
+    let mut ok = true;
+    while i < N {
+        ok &= is_digit(lit[i]);
+        i += 1;
+    }
+    assume!(s, ok);
+    // reference value
+    let mut acc: i128 = 0;
+    let mut i = if signed { 1 } else { 0 };
+    while i < N {
+        acc = acc * 10 + (lit[i] - b'0') as i128;
+        i += 1;
+    }
+    if lit[0] == b'-' {
+        acc = -acc;
+    }
+    // the float fallback (entered e.g. for "-5" into an unsigned target) sees the exact value
+    #[cfg(kani)]
+    unsafe {
+        crate::stubs::STUB_F32 = acc as f32;
+        crate::stubs::STUB_F64 = acc as f64;
+        crate::stubs::STUB_FLOAT_MODE = 0;
+    }
+    let out = outcome(T::try_from(Token::DecimalNumericProgramData(&lit)));
+    crate::note!("C07 nr1: target {} <- {:?} (= {}): outcome {:?}", core::any::type_name::<T>(),
+        core::str::from_utf8(&lit), acc, out);
+    witness!(matches!(out, Out::Value(n) if n > 1 || n < -1), "nr1: a value");
+    let expect = if acc >= T::MIN_ && acc <= T::MAX_ { Out::Value(acc) } else { Out::Code(-222) };
+    ob!(out == expect, "C07: NR1 literal does not convert to its exact value / -222");
+    Ok(())
+}
+
+/// (c) non-decimal literals convert by exact value.
+pub fn nondecimal<T: IntT, S: Src>(s: &mut S) -> R {
+    let v = s.u64();
+    let out = outcome(T::try_from(Token::NonDecimalNumericProgramData(v)));
+    crate::note!("C07 nondecimal: target {} <- {}: {:?}", core::any::type_name::<T>(), v, out);
+    witness!(matches!(out, Out::Value(n) if n > 1), "nondecimal: a value");
+    let expect = if (v as i128) <= T::MAX_ { Out::Value(v as i128) } else { Out::Code(-222) };
+    ob!(out == expect, "C07: non-decimal literal does not convert by exact value");
+    Ok(())
+}
+
+fn eq_nocase(a: &[u8], b: &[u8]) -> bool {
+    if a.len() != b.len() {
+        return false;
+    }
+    let mut i = 0;
+    while i < a.len() {
+        if a[i].to_ascii_uppercase() != b[i].to_ascii_uppercase() {
+            return false;
+        }
+        i += 1;
+    }
+    true
+}
+
+/// (d) character data of exactly N bytes: MIN/MAX keywords (short or long form, any case)
+/// give the bounds, everything else is a data type error (-104).
+pub fn chardata<T: IntT, const N: usize, S: Src>(s: &mut S) -> R {
+    let d: [u8; N] = crate::bytes::<N, S>(s);
+    let out = outcome(T::try_from(Token::CharacterProgramData(&d)));
+    crate::note!("C07 chardata: target {} <- {:?}: {:?}", core::any::type_name::<T>(), core::str::from_utf8(&d), out);
+    let is_max = eq_nocase(&d, b"MAX") || eq_nocase(&d, b"MAXIMUM");
+    let is_min = eq_nocase(&d, b"MIN") || eq_nocase(&d, b"MINIMUM");
+    witness!(is_max, "chardata: MAX keyword");
+    let expect = if is_max {
+        Out::Value(T::MAX_)
+    } else if is_min {
+        Out::Value(T::MIN_)
+    } else {
+        Out::Code(-104)
+    };
+    ob!(out == expect, "C07: MIN/MAX keyword or character data mishandled");
+    Ok(())
+}
+
+/// (d') every other data element kind is rejected with a command error: suffix -138, the rest -104.
+/// (one conversion per concrete token kind: a symbolic `Token` discriminant would make CBMC explore
+/// the numeric arms on garbage payloads)
+pub fn otherkinds<T: IntT, S: Src>(s: &mut S) -> R {
+    let p: [u8; 3] = crate::bytes::<3, S>(s);
+    let o0 = outcome(T::try_from(Token::DecimalNumericSuffixProgramData(&p[..1], &p[1..])));
+    let o1 = outcome(T::try_from(Token::StringProgramData(&p)));
+    let o2 = outcome(T::try_from(Token::ArbitraryBlockData(&p)));
+    let o3 = outcome(T::try_from(Token::ExpressionProgramData(&p)));
+    crate::note!("C07 otherkinds: target {} payload {:?}: suffix {:?} string {:?} block {:?} expr {:?}",
+        core::any::type_name::<T>(), p, o0, o1, o2, o3);
+    witness!(o0 == Out::Code(-138), "otherkinds: suffix rejected");
+    ob!(o0 == Out::Code(-138), "C07: suffixed literal not rejected with -138");
+    ob!(o1 == Out::Code(-104) && o2 == Out::Code(-104) && o3 == Out::Code(-104),
+        "C07: non-numeric element not rejected with -104");
+    Ok(())
+}
+
+/// bool from a decimal literal is "rounds to non-zero" (defined through the isize path).
+pub fn bool_numeric<S: Src>(s: &mut S) -> R {
+    let v = s.f64();
+    assume!(s, !v.is_nan());
+    #[cfg(kani)]
+    let r = {
+        unsafe {
+            crate::stubs::STUB_F64 = v;
+            crate::stubs::STUB_FLOAT_MODE = 0;
+        }
+        bool::try_from(Token::DecimalNumericProgramData(b"1.5"))
+    };
+    #[cfg(not(kani))]
+    let r = {
+        let lit = crate::checks::literal_f64(v);
+        match scpi::parser::tokenizer::Tokenizer::new_params(lit.as_bytes()).next() {
+            Some(Ok(t)) => bool::try_from(t),
+            _ => return Err("replay: literal did not lex"),
+        }
+    };
+    crate::note!("C07 bool: {:e} -> {:?}", v, r);
+    let io = acceptable(v, isize::MIN as i128, isize::MAX as i128, Out::Code(-222));
+    let (lo, hi) = if v.is_infinite() { (1, 1) } else { crate::oracles::round::nearest(v) };
+    match r {
+        Ok(b) => {
+            witness!(b, "bool: true");
+            witness!(!b, "bool: false");
+            ob!(!v.is_infinite(), "C07/C08: bool from an infinite value");
+            ob!((b && (lo != 0 || hi != 0)) || (!b && (lo == 0 || hi == 0)), "C07/C08: bool is not 'rounds to non-zero'");
+        }
+        Err(e) => {
+            ob!(e.get_code() == -222 && io, "C07/C08: bool conversion failed although the value rounds to a representable integer");
+        }
+    }
+    Ok(())
+}
